@@ -11,7 +11,7 @@ import (
 )
 
 func HashMapToJSONString(hm *value.HashMap) (*value.String, error) {
-	data, err := marshalElement(hm)
+	data, err := marshalElement(hm, 0)
 	if err != nil {
 		return nil, value.ThrowException("生成JSON失败 - " + err.Error())
 	}
@@ -105,7 +105,7 @@ func decodeElement(decoder *json.Decoder, depth int) (r.Element, error) {
 }
 
 func ElementToJSONString(elem r.Element) (*value.String, error) {
-	jsonStr, err := marshalElement(elem)
+	jsonStr, err := marshalElement(elem, 0)
 	if err != nil {
 		return nil, value.ThrowException("生成JSON失败 - " + err.Error())
 	}
@@ -115,12 +115,16 @@ func ElementToJSONString(elem r.Element) (*value.String, error) {
 // marshalElement - encode an element into JSON text.
 // Different from json.Marshal() on a plain map, the keys of a hashmap keep their insertion
 // order, and an empty array yields [] (instead of null)
-func marshalElement(elem r.Element) ([]byte, error) {
+func marshalElement(elem r.Element, depth int) ([]byte, error) {
+	// the same bound as for parsing: whatever is generated can be parsed again
+	if depth > maxJSONDepth {
+		return nil, fmt.Errorf("exceeded max depth")
+	}
 	switch vv := elem.(type) {
 	case *value.Array:
 		buf := []byte{'['}
 		for idx, vi := range vv.GetValue() {
-			item, err := marshalElement(vi)
+			item, err := marshalElement(vi, depth+1)
 			if err != nil {
 				return nil, err
 			}
@@ -137,7 +141,7 @@ func marshalElement(elem r.Element) ([]byte, error) {
 			if err != nil {
 				return nil, err
 			}
-			item, err := marshalElement(vv.GetValue()[k])
+			item, err := marshalElement(vv.GetValue()[k], depth+1)
 			if err != nil {
 				return nil, err
 			}
